@@ -322,7 +322,14 @@ def run(repo: Repo) -> Result:
     res.ob(it.qual, 2)
     rets = [s for s in walk_no_nested(it.node) if isinstance(s, ast.Return)]
     last = rets[-1].value if rets else None
-    if text(last) != "not (obj is False or obj is None)":
+    # canonical conjunct set: {obj is not False, obj is not None} (in any spelling: `not (a or b)`,
+    # `a and b` with the negations inside, either operand order)
+    from ..guards import canon as _canonT
+    from ..guards import conjuncts as _conjT
+
+    p_obj = it.params()[0] if it.params() else "obj"
+    want_t = {_canonT(ast.parse(f"{p_obj} is not False", mode="eval").body), _canonT(ast.parse(f"{p_obj} is not None", mode="eval").body)}
+    if last is None or {_canonT(c) for c in _conjT(last)} != want_t:
         res.add("C12-TRUTHY", it.qual, f"return:{text(last)[:40] if last is not None else None}", "is_truthy must end in `not (obj is False or obj is None)`: only false and nil are falsy (0, '', [] are truthy)", it.file, it.line)
     if "is_undefined(obj)" not in text(it.node):
         res.add("C12-TRUTHY", it.qual, "undefined", "is_truthy must treat undefined values as false", it.file, it.line)
